@@ -334,6 +334,10 @@ Fixpoint diff_stores (want_l : list (Z * Z)) (lw rw : amap Z) (got : list (Z * Z
 Fixpoint pairwise_disjoint (l : list (Z * rv)) : bool :=
   match l with [] => true | x :: r => forallb (fun y => negb (intersects (snd x) (snd y))) r && pairwise_disjoint r end.
 
+(* region-storage mode: saves not yet covered by an explicit flush — a load (it reads leveldb only) is then not
+   compared with the wanted content; the pruning clauses (cache vs storage) are judged regardless *)
+Definition dirty (w : want) : bool := match w_pending w with [] => false | _ => true end.
+
 Fixpoint mon (w : want) (ops : list op) (obs_l : list obs) : option string :=
   match ops, obs_l with
   | o :: r, b :: br =>
@@ -365,7 +369,8 @@ Fixpoint mon (w : want) (ops : list op) (obs_l : list obs) : option string :=
           if negb (sorted_ids_b 0 got) then Some "C17:load:region-loaded-twice-or-out-of-order"
           else match st with
                | RDone =>
-                   if w_known w then
+                   if dirty w then mon w r br
+                   else if w_known w then
                      match diff_load (w_regions w) got (w_deleted w) with
                      | Some sg => Some sg
                      | None => mon w r br
@@ -379,13 +384,15 @@ Fixpoint mon (w : want) (ops : list op) (obs_l : list obs) : option string :=
       | OLoadIntoCache, BCache st loaded c after =>
           match st with
           | RDone =>
-              match (if w_known w then diff_load (w_regions w) loaded (w_deleted w) else None) with
+              match (if w_known w && negb (dirty w) then diff_load (w_regions w) loaded (w_deleted w) else None) with
               | Some sg => Some sg
               | None =>
               if negb (sorted_ids_b 0 loaded) then Some "C17:load:region-loaded-twice-or-out-of-order"
               else if negb (pairwise_disjoint c) then Some "C17:prune:cache-overlaps"
               else if list_eqb item_eqb c after
-                   then mon (W (w_stores w) (w_lw w) (w_rw w) after true (w_rs w) [] (w_pending w)) r br
+                   then (if dirty w
+                         then mon (W (w_stores w) (w_lw w) (w_rw w) (w_regions w) false (w_rs w) (w_deleted w) (w_pending w)) r br
+                         else mon (W (w_stores w) (w_lw w) (w_rw w) after true (w_rs w) [] (w_pending w)) r br)
               else if list_eqb item_eqb c (filter (fun it => negb (fst it =? max_id)) after)
                    then Some "C17:prune:max-id-left-in-storage"
               else Some "C17:prune:storage-differs-from-cache"
@@ -398,22 +405,7 @@ Fixpoint mon (w : want) (ops : list op) (obs_l : list obs) : option string :=
   | _, _ => None
   end.
 
-(* in region-storage mode a load is judged only if a flush has returned since the last save *)
-Fixpoint flush_before_loads (dirty : bool) (ops : list op) : bool :=
-  match ops with
-  | [] => true
-  | OSaveRegion _ _ :: r => flush_before_loads true r
-  | OFlush :: r | OReopen :: r => flush_before_loads false r
-  | OCrash :: r => flush_before_loads false r
-  | OLoadRegions :: r | OLoadOnce :: r | OLoadIntoCache :: r => negb dirty && flush_before_loads dirty r
-  | _ :: r => flush_before_loads dirty r
-  end.
-Fixpoint uses_rs (ops : list op) : bool :=
-  match ops with [] => false | OSwitch true :: _ => true | _ :: r => uses_rs r end.
-
-Definition monitor (c : list op * list obs) : option string :=
-  if uses_rs (fst c) && negb (flush_before_loads false (fst c)) then None
-  else mon winit (fst c) (snd c).
+Definition monitor (c : list op * list obs) : option string := mon winit (fst c) (snd c).
 
 Fixpoint monitor_fails_from (n : nat) (cs : list (list op * list obs)) : list (nat * string) :=
   match cs with
